@@ -307,6 +307,17 @@ def viareg(x):
 
 HANDLERS = {"viareg": viareg, "report": report}
 
+TABLE = {"k": 1}
+
+@m.memento_function(cluster=CL)
+def viadefault(x, table=TABLE):
+    # (a default value that is a container of the module)
+    return table["k"] + x
+
+@m.memento_function(cluster=CL)
+def viacaller(x):
+    return viadefault(x) + 1
+
 LIMITS = [1, 2]
 
 @m.memento_function(cluster=CL)
@@ -358,7 +369,7 @@ def scale(x):
 def scale3(x):
     return x %(op)s FACTOR %(op)s 4
 """
-ASKED = ("report", "total", "viaattr", "twice", "declared", "viareg", "viabound")
+ASKED = ("report", "total", "viaattr", "twice", "declared", "viareg", "viabound", "viadefault", "viacaller")
 REBINDS = {  # statement executed in the main module, after versions were asked once
     # the name of a memento function re-bound to its plain function / a modifier clone / an unregistered wrapper
     "memento_to_its_plain_function": "report = report.fn",
@@ -389,6 +400,9 @@ REBINDS = {  # statement executed in the main module, after versions were asked 
     "helper_name_to_a_foreign_function_and_back": ["import json\nscale = json.dumps", "scale = scale2"],
     # ... an undefined attribute starts being served by the module's __getattr__
     "late_attribute_served_by_a_module_getattr": ["lz._LATE[\"later\"] = scale2"],
+    # ... a container that is the default value of a parameter of a memento function is changed in place
+    "default_value_container_changed_in_place": ["TABLE[\"k\"] = 2"],
+    "default_value_container_of_a_callee_changed_in_place": ["TABLE[\"k\"] = 3"],
     # ... the list that a module-level partial clone binds is changed in place
     "argument_bound_by_a_partial_clone_changed_in_place": ["LIMITS.append(3)"],
     # ... the name of a plain helper is re-bound to an array
@@ -440,7 +454,7 @@ def rebind_child(arg):
         from twosigma.memento.memento import MementoFunction as _MF
 
         _MF.increment_global_fn_generation()
-    asked = ["twice", "declared", "viareg", "total", "viabound", "viaattr", "report"] if arg.get("order") else ["report", "viaattr", "total", "twice", "viabound", "declared", "viareg"]
+    asked = ["twice", "viacaller", "declared", "viareg", "total", "viabound", "viaattr", "viadefault", "report"] if arg.get("order") else ["report", "viaattr", "viadefault", "total", "twice", "viabound", "viacaller", "declared", "viareg"]
     if arg.get("first") in asked:  # (whoever is asked first gets no help from another function's query)
         asked = [arg["first"]] + [n for n in asked if n != arg["first"]]
     for n in asked:
@@ -488,7 +502,8 @@ def run_rebind(case):
         write(sc.path("fresh"), "\n" + stmt_text % {"pkg": pkg} + "\n")
         try:
             first = {"variable_of_the_other_module": "total", "argument_bound_by_a_partial_clone_changed_in_place": "viabound",
-                     "late_attribute_served_by_a_module_getattr": "twice"}.get(how)
+                     "late_attribute_served_by_a_module_getattr": "twice", "default_value_container_changed_in_place": "viadefault",
+                     "default_value_container_of_a_callee_changed_in_place": "viacaller"}.get(how)
             live = procs.in_child(rebind_child, {"root": sc.path("live"), "pkg": pkg, "how": how, "live": True,
                                                 "call_first": rng.random() < 0.5, "order": rng.random() < 0.5, "first": first})
             fresh = procs.in_child(rebind_child, {"root": sc.path("fresh"), "pkg": pkg, "how": how, "first": first})
